@@ -35,9 +35,34 @@ def norm_model(line: str) -> dict:
     return mo
 
 
+def beyond_resource_bound(case: dict) -> bool:
+    """An expression of the case meets a power beyond the reference's resource bound under these values (DESIGN 10): such a
+    case is run nowhere - the extracted model's binary arithmetic would take hours on numbers of millions of bits."""
+    from harness import gen_ctx as GC
+
+    try:
+        return GC.reference(case).get("v") == "unknown"
+    except Exception:  # noqa: BLE001
+        return False
+
+
+SKIPPED = {"__skipped__": True, "why": "beyond the resource bound"}
+
+
 def run_cases(cases: list[dict], model: Model, worker: ImplWorker, timeout: float = 15.0):
-    answers = model.ask_many([I.fn_case_sx(c) for c in cases])
-    results = worker.call_many("impl_fn", cases, timeout=timeout)
+    big = [beyond_resource_bound(c) for c in cases]
+    run = [c for c, b in zip(cases, big) if not b]
+    answers_run = model.ask_many([I.fn_case_sx(c) for c in run])
+    results_run = worker.call_many("impl_fn", run, timeout=timeout)
+    it_a, it_r = iter(answers_run), iter(results_run)
+    answers, results = [], []
+    for b in big:
+        if b:
+            answers.append("SKIPPED")
+            results.append(dict(SKIPPED))
+        else:
+            answers.append(next(it_a))
+            results.append(next(it_r))
     out = []
     for c, a, r in zip(cases, answers, results):
         try:
